@@ -101,6 +101,9 @@ func desyncClass(err error) string {
 
 // runC14Sequence drives one verified session with a generated sequence of well-formed messages.
 func runC14Sequence(ctx context.Context, run *common.Run, st *c14Stats, idx int, maxPayload int) {
+	if run.Saturated() {
+		return
+	}
 	rng := common.Rng(run.Seed, int64(140000+idx))
 	withTx := rng.Intn(4) != 0
 	repo := headers.NewRepository(headers.DefaultConfig(), common.NewMemStore())
@@ -337,7 +340,7 @@ func RunC14(tier string, seed int64) int {
 		"a close caused by one of the node's own timers is inconclusive, not a violation"}
 	n, maxPayload, par := 400, 300000, 32
 	if tier == "thorough" {
-		n, maxPayload, par = 20000, 4 << 20, 48
+		n, maxPayload, par = 20000, 4<<20, 48
 	}
 	st := &c14Stats{}
 	common.ParallelFor(n, par, func(i int) { runC14Sequence(ctx, run, st, i, maxPayload) })
